@@ -550,11 +550,13 @@ fn ddump(w: &World, d: &Descriptor<Key>) -> String {
     }
 }
 
-fn tap_tree(leaves: &[Miniscript<Key, Tap>], shape: u64) -> Option<TapTree<Key>> {
+fn tap_tree(leaves: &[Arc<Miniscript<Key, Tap>>], shape: u64) -> Option<TapTree<Key>> {
     // shape bits choose left-deep / right-deep / balanced combination
-    fn go(ls: &[Miniscript<Key, Tap>], shape: u64) -> Option<TapTree<Key>> {
+    // the harness never calls Miniscript::clone on its own account (it is one of the observed operations):
+    // leaves are shared through Arc
+    fn go(ls: &[Arc<Miniscript<Key, Tap>>], shape: u64) -> Option<TapTree<Key>> {
         if ls.len() == 1 {
-            return Some(TapTree::leaf(ls[0].clone()));
+            return Some(TapTree::leaf(Arc::clone(&ls[0])));
         }
         let split = match shape % 3 {
             0 => 1,
@@ -594,9 +596,11 @@ fn run_desc(w: &World, seed: u64, nbase: usize) -> Dom<Descriptor<Key>> {
             variants.extend(neighbours(&t, 6).into_iter().filter(|(k, _)| arity_kind(k) || *k == "leaf-key").take(6).map(|x| x.1));
             for v in &variants {
                 if let Some((m, true)) = tree::build::<Segwitv0>(w, false, v) {
-                    if let Some(i) = add(&mut d, Descriptor::new_wsh(m.clone()).ok(), "wsh") {
+                    if let Some(i) = add(&mut d, Descriptor::new_wsh(m).ok(), "wsh") {
                         ids.push(i);
                     }
+                }
+                if let Some((m, true)) = tree::build::<Segwitv0>(w, false, v) {
                     if let Some(i) = add(&mut d, Descriptor::new_sh_wsh(m).ok(), "sh-wsh") {
                         ids.push(i);
                     }
@@ -635,10 +639,10 @@ fn run_desc(w: &World, seed: u64, nbase: usize) -> Dom<Descriptor<Key>> {
         // taproot: internal key, 0..4 leaves, tree shapes; leaf neighbours; same leaves at different depths
         let mut g = Gen::new(w, seed.wrapping_add(round as u64 * 15485863), tapi);
         let nl = rng.below(5) as usize;
-        let mut leaves: Vec<Miniscript<Key, Tap>> = Vec::new();
+        let mut leaves: Vec<Arc<Miniscript<Key, Tap>>> = Vec::new();
         for _ in 0..nl {
             if let Some(m) = g.gen::<Tap>(B::B, 1 + rng.below(2) as u32) {
-                leaves.push(m);
+                leaves.push(Arc::new(m));
             }
         }
         let ik = rng.below(6) as usize;
@@ -667,7 +671,7 @@ fn run_desc(w: &World, seed: u64, nbase: usize) -> Dom<Descriptor<Key>> {
             for (_, v) in neighbours(&t, 6).into_iter().filter(|(k, _)| arity_kind(k) || *k == "leaf-key").take(4) {
                 if let Some((m, true)) = tree::build::<Tap>(w, true, &v) {
                     let mut l2 = leaves.clone();
-                    l2[0] = m;
+                    l2[0] = Arc::new(m);
                     if let Some(i) = add(&mut d, Descriptor::new_tr(w.key(ik, true), tap_tree(&l2, shape)).ok(), "tr-leaf-neighbour") {
                         ids.push(i);
                     }
@@ -979,6 +983,72 @@ fn run_pol(w: &World, seed: u64, nbase: usize) -> (Dom<Concrete<Key>>, Dom<SemH>
 }
 
 pub fn run(args: &[String]) {
+    // a panic of the harness itself (not of an observed operation) is reported with its message
+    let r = catch_unwind(AssertUnwindSafe(|| run_inner(args)));
+    if let Err(e) = r {
+        let msg = e.downcast_ref::<String>().cloned().or_else(|| e.downcast_ref::<&str>().map(|s| s.to_string())).unwrap_or_default();
+        eprintln!("eqord: harness panic: {}", msg);
+        std::process::exit(3);
+    }
+}
+
+/// replay: `eqord values <dom> <dump> -- <dump> ...`: the given values, all ordered pairs, one set group
+fn run_values<Ctx: ScriptContext>(w: &World, ci: CtxInfo, dom: &str, dumps: &[String]) -> Dom<Miniscript<Key, Ctx>> {
+    let mut d: Dom<Miniscript<Key, Ctx>> = Dom::new(dom);
+    let mut ids = Vec::new();
+    for dump in dumps {
+        let tok: Vec<&str> = dump.split_whitespace().collect();
+        let mut pos = 0;
+        let t = tree::parse_dump(w, ci.tap, &tok, &mut pos).expect("replay: unparsable dump");
+        let (m, ok) = tree::build::<Ctx>(w, ci.tap, &t).expect("replay: value cannot be built");
+        let dd = ast::dump_str(w, &m.node);
+        ids.push(d.add(m, dd, ok, "replay"));
+    }
+    d.all_pairs(&ids);
+    d.groups.push(ids);
+    d
+}
+
+fn run_inner(args: &[String]) {
+    if args.first().map(|s| s.as_str()) == Some("values") {
+        let w = World::new();
+        let dom = args[1].as_str();
+        let dumps: Vec<String> = args[2..].join(" ").split(" -- ").map(|s| s.trim().to_string()).filter(|s| !s.is_empty()).collect();
+        let (tap, legacy_like, n_keys) = match dom {
+            "tap" => (true, false, 6),
+            "segv0" => (false, false, 6),
+            _ => (false, true, N_KEYS),
+        };
+        let ci = CtxInfo { tap, legacy_like, n_keys };
+        let keys: Vec<Key> = (0..N_KEYS).map(|i| w.key(i, tap)).collect();
+        let mut idx: Vec<usize> = (0..N_KEYS).collect();
+        idx.sort_by(|&a, &b| keys[a].cmp(&keys[b]));
+        let mut r = vec![0; N_KEYS];
+        for (pos, &i) in idx.iter().enumerate() {
+            r[i] = pos;
+        }
+        for j in 0..N_PRE {
+            println!("HB sha256_{} {}", j, hex(w.sha256_img(j).as_byte_array()));
+            println!("HB hash256_{} {}", j, hex(w.hash256_img(j).as_byte_array()));
+            println!("HB ripemd160_{} {}", j, hex(w.ripemd160_img(j).as_byte_array()));
+            println!("HB hash160_{} {}", j, hex(w.hash160_img(j).as_byte_array()));
+        }
+        for i in 0..N_KEYS {
+            println!("HB rawpkh_n_{} {}", i, hex(tree::raw_pkh(&w, i, false).as_byte_array()));
+            println!("HB rawpkh_t_{} {}", i, hex(tree::raw_pkh(&w, i, true).as_byte_array()));
+        }
+        for name in ["bare", "legacy", "segv0", "tap"] {
+            println!("K {} {}", name, r.iter().map(|x| x.to_string()).collect::<Vec<_>>().join(" "));
+        }
+        let p: Vec<Vec<String>> = (0..N_KEYS).map(|i| record(&w.key(i, tap))).collect();
+        match dom {
+            "bare" => emit(&run_values::<BareCtx>(&w, ci, dom, &dumps), &|m: &Miniscript<Key, BareCtx>| ast::dump_str(&w, &m.node), &p, true),
+            "legacy" => emit(&run_values::<Legacy>(&w, ci, dom, &dumps), &|m: &Miniscript<Key, Legacy>| ast::dump_str(&w, &m.node), &p, true),
+            "segv0" => emit(&run_values::<Segwitv0>(&w, ci, dom, &dumps), &|m: &Miniscript<Key, Segwitv0>| ast::dump_str(&w, &m.node), &p, true),
+            _ => emit(&run_values::<Tap>(&w, ci, dom, &dumps), &|m: &Miniscript<Key, Tap>| ast::dump_str(&w, &m.node), &p, true),
+        }
+        return;
+    }
     let seed: u64 = args.first().and_then(|s| s.parse().ok()).unwrap_or(1);
     let thorough = std::env::var("VERIF_TIER").map(|t| t == "thorough").unwrap_or(false);
     let nbase = if thorough { 160 } else { 36 };
